@@ -30,6 +30,7 @@
 #include "celma/prog_args.hpp"
 #include "celma/prog_args/groups.hpp"
 #include "celma/prog_args/level_counter.hpp"
+#include "celma/container/dynamic_bitset.hpp"
 #include "celma/prog_args/eval_argument_string.hpp"
 #include "celma/appl/arg_string_2_array.hpp"
 
@@ -78,18 +79,23 @@ template <typename It> static std::string strList(It b, It e) {
 struct ISlot {
    virtual ~ISlot() = default;
    virtual TypedArgBase* dest(const std::string& name) = 0;
+   // pair argument (DEST_PAIR): this slot is the first variable, aux the second one that is set to val; nullptr: not supported
+   virtual TypedArgBase* destPair(const std::string&, int&, int) { return nullptr; }
    virtual std::string json() const = 0;
 };
+#define PAIR_DEST TypedArgBase* destPair(const std::string& n, int& aux, int val) override { return celma::prog_args::destination(v, n, aux, "aux", val); }
 struct FlagSlot : ISlot {
    bool v;
    explicit FlagSlot(const vj::Value& init) : v(init.boolean()) {}
    TypedArgBase* dest(const std::string& n) override { return celma::prog_args::destination(v, n); }
+   PAIR_DEST
    std::string json() const override { return v ? "true" : "false"; }
 };
 struct IntSlot : ISlot {
    int v;
    explicit IntSlot(const vj::Value& init) : v(static_cast<int>(init.num())) {}
    TypedArgBase* dest(const std::string& n) override { return celma::prog_args::destination(v, n); }
+   PAIR_DEST
    std::string json() const override { return std::to_string(v); }
 };
 // double destination: the projection is the number of quarters when the value is an exact multiple of 1/4
@@ -97,6 +103,7 @@ struct DblSlot : ISlot {
    double v;
    explicit DblSlot(const vj::Value& init) : v(static_cast<double>(init.num()) / 4.0) {}
    TypedArgBase* dest(const std::string& n) override { return celma::prog_args::destination(v, n); }
+   PAIR_DEST
    std::string json() const override {
       const double q = v * 4.0;
       if (q == static_cast<double>(static_cast<long long>(q)) && q < 1e9 && q > -1e9) return std::to_string(static_cast<long long>(q));
@@ -113,6 +120,7 @@ struct StrSlot : ISlot {
    std::string v;
    explicit StrSlot(const vj::Value& init) : v(init.bytes()) {}
    TypedArgBase* dest(const std::string& n) override { return celma::prog_args::destination(v, n); }
+   PAIR_DEST
    std::string json() const override { return codes(v); }
 };
 struct OptIntSlot : ISlot {
@@ -125,12 +133,14 @@ template <typename C> struct IntContSlot : ISlot {
    C v;
    explicit IntContSlot(const vj::Value& init) { for (auto x : init.ints()) v.insert(v.end(), static_cast<int>(x)); }
    TypedArgBase* dest(const std::string& n) override { return celma::prog_args::destination(v, n); }
+   PAIR_DEST
    std::string json() const override { return intList(v.begin(), v.end()); }
 };
 struct VecStrSlot : ISlot {
    std::vector<std::string> v;
    explicit VecStrSlot(const vj::Value& init) { for (size_t i = 0; i < init.size(); ++i) v.push_back(init[i].bytes()); }
    TypedArgBase* dest(const std::string& n) override { return celma::prog_args::destination(v, n); }
+   PAIR_DEST
    std::string json() const override { return strList(v.begin(), v.end()); }
 };
 struct Arr3Slot : ISlot {
@@ -190,7 +200,44 @@ struct Bits8Slot : ISlot {
    std::string json() const override { std::string s = "["; for (size_t i = 0; i < 8; ++i) { if (i) s += ','; s += v[i] ? "true" : "false"; } return s + "]"; }
 };
 
-static std::unique_ptr<ISlot> makeSlot(const std::string& kind, const vj::Value& init) {
+// growing bit sets: init = positions that are set, isize = initial size; projection: ascending positions that are set
+struct VecBoolSlot : ISlot {
+   std::vector<bool> v;
+   VecBoolSlot(const vj::Value& init, size_t isize) : v(isize, false) { for (auto x : init.ints()) { if (static_cast<size_t>(x) >= v.size()) v.resize(static_cast<size_t>(x) + 1); v[static_cast<size_t>(x)] = true; } }
+   TypedArgBase* dest(const std::string& n) override { return celma::prog_args::destination(v, n); }
+   std::string json() const override { std::vector<int> o; for (size_t i = 0; i < v.size(); ++i) if (v[i]) o.push_back(static_cast<int>(i)); return intList(o.begin(), o.end()); }
+};
+struct DynBitsSlot : ISlot {
+   celma::container::DynamicBitset v;
+   DynBitsSlot(const vj::Value& init, size_t isize) : v(isize) { for (auto x : init.ints()) v.set(static_cast<size_t>(x)); }
+   TypedArgBase* dest(const std::string& n) override { return celma::prog_args::destination(v, n); }
+   std::string json() const override { std::vector<int> o; for (size_t i = 0; i < v.size(); ++i) if (v.test(i)) o.push_back(static_cast<int>(i)); return intList(o.begin(), o.end()); }
+};
+// key-value container: init = [[key codes, value]..]; projection: the pairs in the map's (key) order
+struct MapSiSlot : ISlot {
+   std::map<std::string, int> v;
+   explicit MapSiSlot(const vj::Value& init) { for (size_t i = 0; i < init.size(); ++i) v[init[i][0].bytes()] = static_cast<int>(init[i][1].num()); }
+   TypedArgBase* dest(const std::string& n) override { return celma::prog_args::destination(v, n); }
+   std::string json() const override { std::string s = "["; bool f = true; for (auto& kv : v) { if (!f) s += ','; f = false; s += "[" + codes(kv.first) + "," + std::to_string(kv.second) + "]"; } return s + "]"; }
+};
+// value argument (DEST_VAR_VALUE) on an int variable that may be shared with other value arguments
+struct ValIntSlot : ISlot {
+   int own;
+   int* var;
+   int setval = 0;
+   explicit ValIntSlot(const vj::Value& init) : own(static_cast<int>(init.num())), var(&own) {}
+   // the value is passed as a constant (like the literal of DEST_VAR_VALUE): a non-const lvalue would select the
+   // start/end overload destination(T&, name, T&)
+   TypedArgBase* dest(const std::string& n) override { const int value = setval; return celma::prog_args::destination(*var, n, value); }
+   std::string json() const override { return std::to_string(*var); }
+};
+
+static std::unique_ptr<ISlot> makeSlot(const std::string& kind, const vj::Value& init, const vj::Value* arg = nullptr) {
+   const size_t isize = arg ? static_cast<size_t>((*arg)["isize"].num()) : 0;
+   if (kind == "vecbool") return std::make_unique<VecBoolSlot>(init, isize);
+   if (kind == "dynbits") return std::make_unique<DynBitsSlot>(init, isize);
+   if (kind == "mapsi") return std::make_unique<MapSiSlot>(init);
+   if (kind == "valint") return std::make_unique<ValIntSlot>(init);
    if (kind == "flag") return std::make_unique<FlagSlot>(init);
    if (kind == "int") return std::make_unique<IntSlot>(init);
    if (kind == "str") return std::make_unique<StrSlot>(init);
@@ -238,6 +285,7 @@ struct Built;
 static std::unique_ptr<Built> buildImpl(const vj::Value& cfg, bool grouped, int extraFlags);
 struct Built {
    std::vector<std::unique_ptr<ISlot>> slots;
+   std::vector<int> aux;                                // second variables of pair arguments (one per argument, 0 when unused)
    std::vector<std::string> defineRes;                  // per argument: "ok" | "refused"
    std::ostringstream out, err;
    std::unique_ptr<Handler> single;                     // mode handler/string
@@ -295,7 +343,9 @@ static void applyArgSettings(const vj::Value& cfg, const vj::Value& a, TypedArgB
       if (fmts[k].str() == "upper") t->addFormat(uppercase());
       else if (fmts[k].str() == "lower") t->addFormat(lowercase());
    }
-   if (a["sep"].num() != 0 && a["sep"].num() != ',') t->setListSep(static_cast<char>(a["sep"].num()));
+   if (a["kind"].str() == "mapsi") t->setListSep(static_cast<char>(a["sep"].num()));      // default ';', the pair separator ',' is refused
+   else if (a["sep"].num() != 0 && a["sep"].num() != ',') t->setListSep(static_cast<char>(a["sep"].num()));
+   if (a["kind"].str() == "valint" && !a["chkorig"].boolean(true)) t->checkOriginalValue(false);
    if (a["clear"].boolean()) t->setClearBeforeAssign();
    if (a["sort"].boolean()) t->setSortData();
    if (a["uniq"].str() == "ignore") t->setUniqueData(false);
@@ -334,6 +384,7 @@ static std::unique_ptr<Built> build(const vj::Value& cfg, bool grouped, int extr
 static std::unique_ptr<Built> buildImpl(const vj::Value& cfg, bool grouped, int extraFlags) {
    auto b = std::make_unique<Built>();
    const vj::Value& args = cfg["args"];
+   b->aux.assign(args.size(), 0);
    const int flags = handlerFlags(cfg) | extraFlags;
    int nmembers = 1;
    if (grouped) {
@@ -365,8 +416,17 @@ static std::unique_ptr<Built> buildImpl(const vj::Value& cfg, bool grouped, int 
          catch (const std::exception& e) { b->defineRes.push_back("refused"); b->setupFailed = true; b->setupWhat = e.what(); break; }
          continue;
       }
-      b->slots.push_back(makeSlot(a["kind"].str(), a["init"]));
+      b->slots.push_back(makeSlot(a["kind"].str(), a["init"], &a));
       if (!b->slots.back()) { b->setupFailed = true; b->setupWhat = "unknown kind " + a["kind"].str(); b->defineRes.push_back("refused"); break; }
+      if (a["kind"].str() == "valint") {
+         auto* vs = static_cast<ValIntSlot*>(b->slots.back().get());
+         vs->setval = static_cast<int>(a["setval"].num());
+         const size_t d = static_cast<size_t>(a["dst"].num());
+         if (d >= 1 && d <= i && args[d - 1]["kind"].str() == "valint") vs->var = static_cast<ValIntSlot*>(b->slots[d - 1].get())->var;
+         else if (d != i + 1) { b->setupFailed = true; b->setupWhat = "valint: dst must name an earlier value argument or the argument itself"; b->defineRes.push_back("refused"); break; }
+      }
+      const bool pairOn = a["pair"]["on"].boolean();
+      if (pairOn) b->aux[i] = static_cast<int>(a["pair"]["init"].num());
       Handler& h = grouped ? *b->members[static_cast<size_t>(a["grp"].num())] : *b->single;
       try {
          std::string spec = keySpec(a);
@@ -376,7 +436,10 @@ static std::unique_ptr<Built> buildImpl(const vj::Value& cfg, bool grouped, int 
             if (!l.empty()) l = "--" + l;
             spec = (!s.empty() && !l.empty()) ? s + "," + l : (s.empty() ? l : s);
          }
-         TypedArgBase* t = h.addArgument(spec, b->slots.back()->dest("v" + std::to_string(i + 1)), a["desc"].kind == vj::Value::Arr ? a["desc"].bytes() : "D" + std::to_string(i + 1));
+         TypedArgBase* d = pairOn ? b->slots.back()->destPair("v" + std::to_string(i + 1), b->aux[i], static_cast<int>(a["pair"]["val"].num()))
+                                  : b->slots.back()->dest("v" + std::to_string(i + 1));
+         if (!d) throw std::logic_error("pair argument not supported by the driver for kind " + a["kind"].str());
+         TypedArgBase* t = h.addArgument(spec, d, a["desc"].kind == vj::Value::Arr ? a["desc"].bytes() : "D" + std::to_string(i + 1));
          b->defineRes.push_back("ok");
          applyArgSettings(cfg, a, t);
       } catch (const std::exception& e) {
@@ -441,7 +504,7 @@ static void doEval(const vj::Value& cfg, const vj::Value& act, const std::string
    const std::string prog = act["prog"].kind == vj::Value::Arr ? act["prog"].bytes() : "prog";
    const bool grouped = mode == "groups";
    std::string out = "ok", what;
-   std::string dest = "[]";
+   std::string dest = "[]", aux = "[]";
    int extra = 0;
    std::string paFile;
    std::string envName;
@@ -479,7 +542,7 @@ static void doEval(const vj::Value& cfg, const vj::Value& act, const std::string
    } catch (const std::exception& e) {
       vj::Line().str("e", "Eval").str("mode", mode).str("presrc", presrc).raw("filetext", "[]").raw("envstr", "[]")
          .raw("argv", dump(act["argv"])).raw("cmd", dump(act["cmd"])).raw("files", "[]")
-         .str("out", "setup").raw("dest", "[]").raw("tag", dump(act["tag"])).str("what", e.what()).emit();
+         .str("out", "setup").raw("dest", "[]").raw("aux", "[]").raw("tag", dump(act["tag"])).str("what", e.what()).emit();
       if (grouped) teardownGroups();
       return;
    }
@@ -500,6 +563,7 @@ static void doEval(const vj::Value& cfg, const vj::Value& act, const std::string
          dest = "[";
          for (size_t i = 0; i < b->slots.size(); ++i) { if (i) dest += ','; dest += b->slots[i]->json(); }
          dest += "]";
+         aux = intList(b->aux.begin(), b->aux.end());
       }
    }
    for (auto& fn : written) unlink(fn.c_str());
@@ -510,7 +574,7 @@ static void doEval(const vj::Value& cfg, const vj::Value& act, const std::string
       .raw("envstr", act["envstr"].kind == vj::Value::Arr ? dump(act["envstr"]) : "[]")
       .raw("argv", dump(act["argv"])).raw("cmd", dump(act["cmd"]))
       .raw("files", act["files"].kind == vj::Value::Arr ? dump(act["files"]) : "[]")
-      .str("out", out).raw("dest", dest).raw("tag", dump(act["tag"])).str("what", what).emit();
+      .str("out", out).raw("dest", dest).raw("aux", aux).raw("tag", dump(act["tag"])).str("what", what).emit();
    b.reset();
    if (grouped) teardownGroups();
 }
